@@ -174,4 +174,14 @@ for _f, _id in ((wmw_status, "C13.WMW-status"), (dom_assert, "C13.DOM-assert"), 
                 (guard_value, "C13.GUARD-parked"), (cfw_status, "C13.CFW-status")):
     _f.rule_id = _id
 
-RULES = [wmw_status, dom_assert, guard_read, guard_value, cfw_status]
+def guard_destroy(ctx, prog):
+    """Dropping a poisoned state must not panic again: deferred var writes are applied only by stabilise_end
+    (State::destroy must not replay them on vars whose cycle it has just broken). Same rule as C08.GUARD-value."""
+    from .engine import run_relabelled
+    from .c08 import guard_value as f
+    run_relabelled(ctx, prog, f, "C08.GUARD-value", "C13.GUARD-apply-site")
+
+
+guard_destroy.rule_id = "C13.GUARD-apply-site"
+
+RULES = [wmw_status, dom_assert, guard_read, guard_value, cfw_status, guard_destroy]
